@@ -35,13 +35,18 @@
      `link_url_from_pipeline`, `fromPipeline_safe` — every emitted url is the empty default, an
         accepted result of the inline / autolink pipeline, or a stored reference destination.
 
+  5. NO PANIC
+     `parseInline_no_panic_flat` — the whole inline parser returns a tree (no Rust panic, no fuel
+        panic) for every chain without the link / image rules; `ruleEmph_total`,
+        `scanAndMatch_total` — the delimiter matching does not panic.
+
   OPEN (not proved here):
-   * no-panic of the WHOLE tokenizer.  Proved: no fuel panic (`fuel_suffices`); no panic of each
-     rule without look-ahead recursion under `InlineInv` (+ `TrailOK`, `EntStop`).  Missing for the
-     composition: (b) memoised positions of `skip_token` are boundaries `≤` the CURRENT `posMax`
-     (the memo is shared between frames with different `posMax`: needs a tiling argument), (c) no
-     panic of `scan_and_match_delimiters` (the range arithmetic is covered by `scanAndMatch_ranges`
-     in partial-correctness form; the index / `split_off` bounds are not stated as totality).
+   * no-panic of the WHOLE tokenizer WITH the link / image rules.  Proved: no fuel panic
+     (`fuel_suffices`); no panic of every rule without look-ahead recursion; extent of the link
+     rule (`inline_rule_bounds_link`).  Missing for the composition: memoised positions of
+     `skip_token` are boundaries `≤` the CURRENT `posMax` (the memo is shared between frames with
+     different `posMax`: needs "rule verdicts do not change when `posMax` shrinks to a token end"
+     for every rule plus look-ahead = real tiling; the code-span part is `CodePair.cache_transparent`).
    * `skip_token_memo_sound` in the strong form "a memo hit equals a fresh look-ahead run from the
      current state" is FALSE in general (`memo_level_dependent`); true form proved:
      `skip_token_memo_entry`.  A positive theorem under "the nesting limit is never reached"
@@ -52,6 +57,7 @@ import MdIt.Lemmas.InlineVals2
 import MdIt.Lemmas.InlineRanges7
 import MdIt.Lemmas.InlineLinkEnd
 import MdIt.Lemmas.InlineText2
+import MdIt.Lemmas.InlineNoPanic
 
 namespace MdIt.Inline
 open MdIt.InlineOps (Srcmap getSourcePosFor getMap byteLen slice)
@@ -557,6 +563,33 @@ theorem finish_children_ordered (cfg : Cfg) {content : List Char} {mapping : Src
     · exact od_finish_join ⟨h3, h4⟩
     · exact ⟨h3, h4⟩
 
+/-! ## 5. no panic -/
+
+/-- **The inline parser does not panic** for every chain without the link and image rules (text,
+    newline, escape, entity, code spans, autolinks, emphasis-like pairs with single-byte markers, in
+    any order; any `max_nesting`) on every content whose per-line table is `MapOK`: `parseInline`
+    returns a tree (no Rust panic, no fuel panic).  Composition of `inline_rule_progress_<rule>`,
+    `ruleEmph_total` (delimiter matching), the range invariant (which provides `TrailOK` for the
+    newline rule) and `EntStop` at the trimmed end.  With the link / image rules the composition
+    additionally needs the memo of `skip_token` to hold positions `≤` the CURRENT `posMax` — OPEN,
+    see the header. -/
+theorem parseInline_no_panic_flat (cfg : Cfg)
+    (hsz : ∀ mk csw, RuleId.emph mk csw ∈ cfg.chain → mk.utf8Size = 1)
+    (hflat : ∀ id ∈ cfg.chain, id.isFlat = true) {content : List Char} {mapping : Srcmap}
+    (hm : MapOK content mapping) : ∃ cs, parseInline cfg content mapping = .ok cs := by
+  obtain ⟨lo, _, hg⟩ := init_good hm
+  have hfuel : (IState.init content mapping).posMax - (IState.init content mapping).pos
+      ≤ topFuel cfg content := by
+    have h1 := trimSrc_le content
+    have h2 : byteLen content + 2 ≤ topFuel cfg content := by
+      unfold topFuel
+      calc byteLen content + 2 = (byteLen content + 2) * 1 := by omega
+        _ ≤ (byteLen content + 2) * (cfg.maxNesting + 2) := Nat.mul_le_mul_left _ (by omega)
+    show (trimSrc content).2 - (trimSrc content).1 ≤ topFuel cfg content
+    omega
+  obtain ⟨st', h, _⟩ := tokLoop_flat hsz hflat (topFuel cfg content) _ hg hfuel
+  exact ⟨st'.children, by unfold parseInline tokenize; rw [h]⟩
+
 /-! ## non-vacuity examples -/
 
 /-- a small configuration for examples: every rule, `*` emphasis, no tables -/
@@ -640,6 +673,17 @@ example : (match parseInline (exCfg 100) "a *b*\nc".toList [(0, 0), (6, 8)] with
     | .error _ => []) =
     [(some (0, 2), []), (some (2, 5), [some (3, 4)]), (some (5, 8), []), (some (8, 9), [])] := by
   decide +kernel
+
+-- `parseInline_no_panic_flat` applies to a chain with emphasis, code spans, entities, … :
+example : ∃ cs, parseInline { exCfg 100 with chain := [.text, .newline, .escape, .backticks,
+      .emph '*' true, .autolink, .entity] } "a *b*\nc".toList [(0, 0), (6, 8)] = .ok cs := by
+  apply parseInline_no_panic_flat _ _ _ exMapOK
+  · intro mk csw h
+    simp only [List.mem_cons, RuleId.emph.injEq, reduceCtorEq, List.mem_nil_iff, or_false, false_or] at h
+    rw [h.1]; decide
+  · intro id h
+    simp only [List.mem_cons, List.mem_nil_iff, or_false] at h
+    rcases h with rfl | rfl | rfl | rfl | rfl | rfl | rfl <;> rfl
 
 /-- the projection of a result to its node values (for examples) -/
 def vals (r : Except Panic (List Node)) : Except Panic (List Val) :=
